@@ -182,12 +182,12 @@ class C09(PropBase):
                 if first["op"] == "del_cells" and (ca is None or not run.mach.deletable(ca)):
                     # an object-valued reference points at A.f: deleting it is the dangling-reference finding of C02
                     first = {"op": "set_cached", "space": "A", "name": "f", "v": True}
-                tail = [first]
+                run.step(first)
                 for _ in range(rr.choice([0, 0, 1, 3])):
-                    op = run.mach.next_op(WEIGHTS)
+                    op = run.mach.next_op(WEIGHTS)      # (generated against the state the previous one left)
                     if op:
-                        tail.append(op)
-                tail += [{"op": "set_ref", "space": "A", "name": "k", "value": {"t": "int", "v": 900001 + rr.randrange(50)}},
+                        run.step(op)
+                tail = [{"op": "set_ref", "space": "A", "name": "k", "value": {"t": "int", "v": 900001 + rr.randrange(50)}},
                          {"op": "eval", "loc": ["B", "U"], "name": "g", "args": [2], "spell": "pos"},
                          {"op": "eval", "loc": ["C"], "name": "h", "args": [rr.choice([1, 2, 3])], "spell": "pos"},
                          {"op": "checkpoint", "extra": [], "final": True}]
